@@ -192,7 +192,12 @@ fn minimise_class(p: &dyn Prop, v: &Violation, kfs: &[KnownFinding]) -> Violatio
             let vs = p.replay(&cand, &mut scratch);
             if let Some(mut nv) = vs
                 .into_iter()
-                .find(|nv| nv.oracle == best.oracle && kf_match(kfs, nv).map(|k| k.id.clone()) == class)
+                .find(|nv| {
+                    nv.oracle == best.oracle
+                        && kf_match(kfs, nv).map(|k| k.id.clone()) == class
+                        // an oracle that lumps every error together must not drift to another error while shrinking
+                        && (best.oracle != "module_unusable" || nv.signature == best.signature)
+                })
             {
                 nv.seed = best.seed;
                 nv.index = best.index;
@@ -218,6 +223,9 @@ fn cmd_one(args: &[String]) -> i32 {
     println!("{}", serde_json::to_string_pretty(&stats.to_json()).unwrap());
     for v in vs {
         println!("VIOLATION oracle={} sig=[{}] {}", v.oracle, v.signature, v.detail);
+        if std::env::var_os("VERIF_DUMP_CASE").is_some() {
+            println!("CASE {}", serde_json::to_string(&v.case).unwrap_or_default());
+        }
     }
     0
 }
